@@ -20,8 +20,8 @@ inductive ParenExt : CST → CST → Prop
   | unary (o : Name) {c c' : CST} : ParenExt c c' → ParenExt (.unary o c) (.unary o c')
   | postfix (o : Name) {c c' : CST} : ParenExt c c' → ParenExt (.postfix c o) (.postfix c' o)
   | call (n : Name) {a a' : CList} : ParenExtL a a' → ParenExt (.call n a) (.call n a')
-  | list {a a' : CList} : ParenExtL a a' → ParenExt (.list a) (.list a')
-  | map {a a' : CMap} : ParenExtM a a' → ParenExt (.map a) (.map a')
+  | list (tr : Bool) {a a' : CList} : ParenExtL a a' → ParenExt (.list a tr) (.list a' tr)
+  | map (tr : Bool) {a a' : CMap} : ParenExtM a a' → ParenExt (.map a tr) (.map a' tr)
   | bin (nt : Bool) (o : Name) {l l' r r' : CST} : ParenExt l l' → ParenExt r r' → ParenExt (.bin nt o l r) (.bin nt o l' r')
   | tern {c c' a a' b b' : CST} : ParenExt c c' → ParenExt a a' → ParenExt b b' → ParenExt (.tern c a b) (.tern c' a' b')
 inductive ParenExtL : CList → CList → Prop
@@ -31,6 +31,15 @@ inductive ParenExtM : CMap → CMap → Prop
   | nil : ParenExtM .nil .nil
   | cons {k k' v v' : CST} {r r' : CMap} : ParenExt k k' → ParenExt v v' → ParenExtM r r' → ParenExtM (.cons k v r) (.cons k' v' r')
 end
+
+theorem ParenExtL.ne_nil {a a' : CList} (h : ParenExtL a a') (hn : a ≠ .nil) : a' ≠ .nil := by
+  cases h with
+  | nil => exact absurd rfl hn
+  | cons _ _ => intro e; cases e
+theorem ParenExtM.ne_nil {a a' : CMap} (h : ParenExtM a a') (hn : a ≠ .nil) : a' ≠ .nil := by
+  cases h with
+  | nil => exact absurd rfl hn
+  | cons _ _ _ => intro e; cases e
 
 /-- Extra parentheses do not change what kind of operand an expression is — except that it becomes
 a parenthesised one, which is allowed everywhere. -/
@@ -47,8 +56,8 @@ theorem ParenExt.strip_eq : ∀ {c c' : CST}, ParenExt c c' → c'.strip = c.str
   | _, _, .unary _ h => by simp only [CST.strip, h.strip_eq]
   | _, _, .postfix _ h => by simp only [CST.strip, h.strip_eq]
   | _, _, .call _ h => by simp only [CST.strip, h.strip_eq]
-  | _, _, .list h => by simp only [CST.strip, h.strip_eq]
-  | _, _, .map h => by simp only [CST.strip, h.strip_eq]
+  | _, _, .list _ h => by simp only [CST.strip, h.strip_eq]
+  | _, _, .map _ h => by simp only [CST.strip, h.strip_eq]
   | _, _, .bin _ _ hl hr => by simp only [CST.strip, hl.strip_eq, hr.strip_eq]
   | _, _, .tern hc ha hb => by simp only [CST.strip, hc.strip_eq, ha.strip_eq, hb.strip_eq]
 theorem ParenExtL.strip_eq : ∀ {a a' : CList}, ParenExtL a a' → a'.strip = a.strip
@@ -67,8 +76,8 @@ theorem ParenExt.canon {regs : Regs} : ∀ {c c' : CST}, ParenExt c c' → Canon
   | _, _, .unary _ h, hc => ⟨hc.1, h.shape.2.2.1 hc.2.1, h.canon hc.2.2⟩
   | _, _, .postfix _ h, hc => ⟨hc.1, h.shape.2.2.2 hc.2.1, h.canon hc.2.2⟩
   | _, _, .call _ h, hc => h.canon hc
-  | _, _, .list h, hc => h.canon hc
-  | _, _, .map h, hc => h.canon hc
+  | _, _, .list _ h, hc => ⟨h.canon hc.1, fun e => h.ne_nil (hc.2 e)⟩
+  | _, _, .map _ h, hc => ⟨h.canon hc.1, fun e => h.ne_nil (hc.2 e)⟩
   | _, _, .bin _ _ hl hr, hc =>
     ⟨hc.1, hl.canon hc.2.1, hr.canon hc.2.2.1, hl.shape.1 hc.2.2.2.1, hr.shape.1 hc.2.2.2.2.1,
       fun o' e => hc.2.2.2.2.2.1 o' (hl.shape.2.1 o' e), fun o' e => hc.2.2.2.2.2.2 o' (hr.shape.2.1 o' e)⟩
